@@ -19,7 +19,7 @@
 (* expand, ksf, xor, cat, lp, i2, lit, zero, h2c, oel, okey, kdk, kpk,     *)
 (* kdh), so a formula exists in exactly one place.                         *)
 (***************************************************************************)
-EXTENDS Naturals, Sequences, FiniteSets, Bags, TLC
+EXTENDS Naturals, Sequences, FiniteSets, Bags, TLC, SequencesExt
 
 NoneV == <<"none">>                    \* absent optional parameter
 
@@ -93,10 +93,11 @@ Keys(d1, d2, d3, th) ==
          km3 |-> ExpLabel(hs, "ClientMAC", Cat(<<>>))]
 
 \* ---- dependency analysis (C17) ----------------------------------------------
-\* The tapes a term depends on: structural recursion over every constructor.
+\* The random choices <<tape, role>> a term depends on: structural recursion over every
+\* constructor.
 RECURSIVE Tapes(_)
 Tapes(t) ==
-    CASE t[1] = "rnd" -> {t[2]}
+    CASE t[1] = "rnd" -> {<<t[2], t[3]>>}
       [] t[1] \in {"atom", "lit", "zero", "i2", "gbg", "none"} -> {}
       [] t[1] = "cat" -> UNION {Tapes(t[2][i]) : i \in 1..Len(t[2])}
       [] t[1] = "lp" -> Tapes(t[3])
@@ -106,6 +107,20 @@ Tapes(t) ==
       [] t[1] = "ksf" -> Tapes(t[3])
       [] t[1] = "oel" -> Tapes(t[2]) \cup UNION {Tapes(k) : k \in BagToSet(t[3])}
       [] t[1] = "kdh" -> UNION {Tapes(x) : x \in t[2]}
+
+\* ---- emission of full terms for the byte-exact evaluator (C09) ---------------
+\* A JSON-friendly copy of a term: bags and sets become sequences.
+RECURSIVE Ast(_)
+Ast(t) ==
+    CASE t[1] \in {"atom", "lit", "zero", "i2", "gbg", "none", "rnd"} -> t
+      [] t[1] = "cat" -> <<"cat", [i \in 1..Len(t[2]) |-> Ast(t[2][i])]>>
+      [] t[1] = "lp" -> <<"lp", t[2], Ast(t[3])>>
+      [] t[1] \in {"hash", "extract", "h2c", "okey", "kdk", "kpk", "inv"} -> <<t[1], Ast(t[2])>>
+      [] t[1] \in {"hmac", "xor", "kdhg"} -> <<t[1], Ast(t[2]), Ast(t[3])>>
+      [] t[1] = "expand" -> <<"expand", Ast(t[2]), Ast(t[3]), t[4]>>
+      [] t[1] = "ksf" -> <<"ksf", t[2], Ast(t[3])>>
+      [] t[1] = "oel" -> <<"oel", Ast(t[2]), SetToSeq({Ast(k) : k \in BagToSet(t[3])})>>
+      [] t[1] = "kdh" -> <<"kdh", SetToSeq({Ast(x) : x \in t[2]})>>
 
 IdEff(opt, pk) == IF opt = NoneV THEN pk ELSE opt      \* absent identity = static public key
 CtxEff(opt)    == IF opt = NoneV THEN Atom(0) ELSE opt \* absent context = empty string
